@@ -151,6 +151,9 @@ func invDecoderPanics(P *Program, S *Specs) []*Obligation {
 		for _, g := range P.AllFuncs {
 			for _, b := range g.Blocks {
 				for _, ins := range b.Instrs {
+					if _, dbg := ins.(*ssa.DebugRef); dbg {
+						continue
+					}
 					for _, op := range ins.Operands(nil) {
 						if *op == nil {
 							continue
@@ -413,6 +416,9 @@ func invOnceClosures(P *Program, S *Specs) []*Obligation {
 		for _, g := range P.AllFuncs {
 			for _, b := range g.Blocks {
 				for _, ins := range b.Instrs {
+					if _, dbg := ins.(*ssa.DebugRef); dbg {
+						continue
+					}
 					for _, op := range ins.Operands(nil) {
 						if *op == nil {
 							continue
